@@ -494,7 +494,7 @@ def run(c):
   clientshapecheck.stage(c)
   pythiashapecheck.stage(c)
   backends = ['ram', 'sqlmem']
-  cfgs = svccheck.identify_flags(c, backends, report=('suggestCatchesAll', 'shortDeliveryOk', 'esFailureFinishesOp', 'esAnswerFinishesOp', 'resumesAbandonedOp'))
+  cfgs = svccheck.identify_flags(c, backends, report=('suggestCatchesAll', 'shortDeliveryOk', 'esFailureFinishesOp', 'esAnswerFinishesOp', 'resumesAbandonedOp', 'esResumesActive'))
   n = 80 if c.tier == 'quick' else 1000
   svccheck.differential(c, 'C06', n, backends, cfgs, weights=WEIGHTS, fail_rate=0.45, clients=('w1', 'w2', 'w3'))
   fault_stage(c, remote=False)
